@@ -16,6 +16,7 @@ import Driver.BER
 import Driver.Resume
 import Driver.Negotiate
 import Driver.GMDecode
+import Driver.Intrinsic
 open Gmsm
 
 def dispatch (toks : List String) : String :=
@@ -38,6 +39,9 @@ def dispatch (toks : List String) : String :=
     | some r => r
     | none =>
     match Driver.gmdecodeDispatch toks with
+    | some r => r
+    | none =>
+    match Driver.intrinsicDispatch toks with
     | some r => r
     | none =>
     match toks with
